@@ -32,6 +32,8 @@ Check(t) ==
          ELSE IF t.bits2 # <<>> /\ (~t.shape2_ok \/ t.bits2 # t.bits) THEN <<"membership(parameters as columns)", "", nj>>
          ELSE IF t.exc3 # "" THEN <<"contains-failed(product space x1*x2, permuted columns):" \o t.exc3, "", nj>>
          ELSE IF t.bits3 # <<>> /\ (~t.shape3_ok \/ t.bits3 # t.bits) THEN <<"membership(product space x1*x2, permuted columns)", "", nj>>
+         ELSE IF t.exc4 # "" THEN <<"contains-failed(shape 256 times larger):" \o t.exc4, "", nj>>
+         ELSE IF t.bits4 # <<>> /\ (~t.shape4_ok \/ \E i \in J : (t.bits4[i] = 1) # In(E(t), Q(t.pts[i]))) THEN <<"membership(shape 256 times larger)", "", nj>>
          ELSE IF ~t.nv_ok THEN <<"necessary-variables", "", nj>>
          ELSE IF t.nv_parts /\ ({t.nv_l[i] : i \in DOMAIN t.nv_l} # FreeVars(E(t).l) \ SpaceVars(E(t).l)
                                 \/ {t.nv_r[i] : i \in DOMAIN t.nv_r} # FreeVars(E(t).r) \ SpaceVars(E(t).r))
